@@ -607,28 +607,29 @@ func init() {
 		}
 	}
 	reg.Register(reg.Check{Property: "C30", Level: "model_checking", Run: func(run *ev.Run) {
-		depth := 4
+		depth := 5
 		ms := []int64{3, 4}
-		deadline := 80 * time.Second
+		budget := 120 * time.Second
 		if ev.Tier() == "thorough" {
-			depth = 5
+			depth = 8
 			ms = []int64{3, 4, 5}
-			deadline = 14 * time.Minute
+			budget = 14 * time.Minute
 		}
+		start := time.Now()
 		runInit(run, ms)
 		exh := true
-		n := 0
-		for _, m := range ms {
-			for range []bool{false, true} {
-				n++
-			}
-			_ = m
-		}
+		left := 2 * len(ms)
 		var qgrid []string
 		for _, m := range ms {
 			for _, pruned := range []bool{false, true} {
 				name := scenName(m, pruned)
-				cfg := bfs.Config{Scenario: name, MaxDepth: depth, Deadline: deadline / time.Duration(n)}
+				remaining := budget - time.Since(start)
+				if remaining < time.Second {
+					remaining = time.Second
+				}
+				// the frontier is small (tens of states): 8 workers are enough and keep process start-up cheap
+				cfg := bfs.Config{Scenario: name, MaxDepth: depth, Deadline: remaining / time.Duration(left), Workers: 8}
+				left--
 				st := bfs.Explore(cfg, run)
 				bfs.Report(run, strings.TrimPrefix(name, "c30/"), cfg, st)
 				exh = exh && st.Exhaustive
